@@ -14,6 +14,19 @@ from pmv.oracles import georef
 class Mismatch (Exception):
     pass
 
+def equivalent_radius (spec, tag, a):
+    """ documented radius of an insulated wire (README, Insulated Wires):
+        a_e = b (a / b) ** (1 / eps_r), b = radius including the insulation
+        (given in the units of the final geometry); the last request for
+        an object counts.
+    """
+    for l in spec.get ('loads') or []:
+        if l ['k'] == 'ins' and (l.get ('tag') is None or l ['tag'] == tag):
+            b = float (l ['radius'])
+            a = b * (a / b) ** (1.0 / float (l ['eps']))
+    return a
+# end def equivalent_radius
+
 def object_nodes (spec, m):
     objs = georef.transformed_objects (spec)
     by_tag = {g.tag: g for g in m.geo}
@@ -28,7 +41,7 @@ def object_nodes (spec, m):
             nodes = [np.asarray (code.segments [0].p1, float)] + [np.asarray (s.p2, float) for s in code.segments]
         if len (nodes) != len (code.segments) + 1:
             raise Mismatch ('object %s: %d segments, reference has %d' % (o ['tag'], len (code.segments), len (nodes) - 1))
-        out [o ['tag']] = dict (nodes = nodes, r = o ['r'], g = g)
+        out [o ['tag']] = dict (nodes = nodes, r = equivalent_radius (spec, o ['tag'], o ['r']), g = g)
     return out
 # end def object_nodes
 
